@@ -157,6 +157,8 @@ def check_sensor_table(ctx, case):
     ts = katsdptelstate.TelescopeState()
     for a, b in zip(chain, chain[1:]):
         ts[a + '_inherit'] = b
+    seen = set()
+    case = dict(case, keys=[km for km in case['keys'] if not (km[0] in seen or seen.add(km[0]))])   # one entry per key
     for i, (k, mut) in enumerate(case['keys']):
         if mut:
             ts.add(k, 200.0 + i, ts=1.0)
@@ -167,6 +169,11 @@ def check_sensor_table(ctx, case):
     src = TelstateDataSource(view, cb, chain[0], chunk_store=None, timestamps=np.arange(3.0))
     got = {n: g.name for n, g in src.metadata.sensors.items()}
     mutable = {k for k, m in case['keys'] if m}
+    # the DATA of a sensor are those stored under the chosen key
+    stored = {k: 200.0 + i for i, (k, m) in enumerate(case['keys']) if m}
+    wrong_data = {n: k for n, k in got.items() if k in stored and list(src.metadata.sensors[n].get().value) != [stored[k]]}
+    if wrong_data:
+        ctx.disagree('what=sensor_data;view=%s' % kind, case, wrong_data, None, 'a sensor does not deliver the data stored under its key')
     # property: for a name that is not aliased, the mutable key of the FIRST namespace of the view that has one
     names = set(got)
     for k in mutable:
